@@ -4,6 +4,7 @@ import (
 	"fmt"
 	"go/token"
 	"go/types"
+	"sort"
 	"strings"
 
 	"golang.org/x/tools/go/ssa"
@@ -428,6 +429,221 @@ func checkC19(c *Ctx, p *Prog, r *Result) {
 			}
 		}
 	}
+
+	// ---- fields shared between a closer and the producer ----
+	// A struct with a close indicator is built so that its closers may run while
+	// another goroutine is inside its other methods (that is what the indicator
+	// and the mutexes are for). Every field of such a struct that is written
+	// after construction and is touched both by a closer (a function that closes
+	// the indicator) and by a non-closer must therefore be accessed under one
+	// common mutex of the struct at every such access.
+	r.rule("C19.closer-shared-fields", "in a struct with a close indicator (UnchunkWriter), every field that is written after construction and accessed both by a closer and by a non-closer method is accessed under one common mutex of the struct everywhere outside its constructor (a closer may run concurrently with the producer: the deferred Close of transfer races the devmod writer when TO2 fails early)")
+	r.floor("C19.closer-shared-fields", 1)
+	type acc struct {
+		fn     *ssa.Function
+		in     ssa.Instruction
+		write  bool
+		closer bool            // runs on the closer side
+		other  bool            // runs on the producer side
+		held   map[string]bool // mutex field names held
+	}
+	for _, ind := range indicators {
+		owner := ind[:strings.LastIndex(ind, ".")]
+		// closers: functions containing close(<owner>.<indicator>)
+		closers := map[*ssa.Function]bool{}
+		for _, fn := range p.Funcs {
+			if funcPkgPath(fn) != sipkg {
+				continue
+			}
+			for _, b := range fn.Blocks {
+				for _, in := range b.Instrs {
+					if call, ok := in.(*ssa.Call); ok {
+						if bi, isB := call.Call.Value.(*ssa.Builtin); isB && bi.Name() == "close" {
+							if fa, isFA := loadOf(call.Call.Args[0]).(*ssa.FieldAddr); isFA && fieldName(fa.X.Type(), fa.Field) == ind {
+								closers[fn] = true
+							}
+						}
+					}
+				}
+			}
+		}
+		if len(closers) == 0 {
+			r.fail("C19.closer-shared-fields: no function closes the indicator %s", ind)
+			continue
+		}
+		// sides: a closer root is any function from which the close of the
+		// indicator is reachable through in-package static calls; the closer
+		// side is everything reachable from a closer root, the other side
+		// everything reachable from the remaining package entry points (a helper
+		// may be on both)
+		cgr := p.CallGraph()
+		inPkgCallees := func(fn *ssa.Function) []*ssa.Function {
+			var out []*ssa.Function
+			for _, ed := range cgr.out[fn] {
+				if (ed.Kind == "static" || ed.Kind == "closure") && funcPkgPath(ed.Callee) == sipkg && ed.Callee != fn {
+					out = append(out, ed.Callee)
+				}
+			}
+			return out
+		}
+		closerRoot := map[*ssa.Function]bool{}
+		for fn := range closers {
+			closerRoot[fn] = true
+		}
+		for changed := true; changed; {
+			changed = false
+			for _, fn := range p.Funcs {
+				if funcPkgPath(fn) != sipkg || closerRoot[fn] {
+					continue
+				}
+				for _, g := range inPkgCallees(fn) {
+					if closerRoot[g] {
+						closerRoot[fn] = true
+						changed = true
+					}
+				}
+			}
+		}
+		reach := func(seed func(*ssa.Function) bool) map[*ssa.Function]bool {
+			out := map[*ssa.Function]bool{}
+			var work []*ssa.Function
+			for _, fn := range p.Funcs {
+				if funcPkgPath(fn) == sipkg && seed(fn) {
+					out[fn] = true
+					work = append(work, fn)
+				}
+			}
+			for len(work) > 0 {
+				fn := work[0]
+				work = work[1:]
+				for _, g := range inPkgCallees(fn) {
+					if !out[g] {
+						out[g] = true
+						work = append(work, g)
+					}
+				}
+			}
+			return out
+		}
+		isEntry := map[*ssa.Function]bool{}
+		for _, fn := range siRoots {
+			isEntry[fn] = true
+		}
+		closerSide := reach(func(fn *ssa.Function) bool { return closerRoot[fn] })
+		otherSide := reach(func(fn *ssa.Function) bool {
+			return !closerRoot[fn] && (isEntry[fn] || (fn.Object() != nil && fn.Object().Exported()))
+		})
+		accs := map[string][]acc{}
+		var mutexes []string
+		for _, fn := range p.Funcs {
+			if funcPkgPath(fn) != sipkg {
+				continue
+			}
+			for _, b := range fn.Blocks {
+				for _, in := range b.Instrs {
+					fa, ok := in.(*ssa.FieldAddr)
+					if !ok {
+						continue
+					}
+					fld := fieldName(fa.X.Type(), fa.Field)
+					if !strings.HasPrefix(fld, owner+".") {
+						continue
+					}
+					if _, fresh := fa.X.(*ssa.Alloc); fresh {
+						continue // the constructor's own, not yet shared object
+					}
+					stt := structOf(fa.X.Type())
+					if stt == nil {
+						continue
+					}
+					if typeShort(stt.Field(fa.Field).Type()) == "sync.Mutex" {
+						continue
+					}
+					if mutexes == nil {
+						for i := 0; i < stt.NumFields(); i++ {
+							if typeShort(stt.Field(i).Type()) == "sync.Mutex" {
+								mutexes = append(mutexes, stt.Field(i).Name())
+							}
+						}
+					}
+					for _, ref := range *fa.Referrers() {
+						a := acc{fn: fn, in: ref, closer: closerSide[fn], other: otherSide[fn], held: map[string]bool{}}
+						if stq, isSt := ref.(*ssa.Store); isSt && stq.Addr == ssa.Value(fa) {
+							a.write = true
+						}
+						st := pkgFlow.StateAt(ref)
+						for i := 0; i < stt.NumFields(); i++ {
+							if typeShort(stt.Field(i).Type()) == "sync.Mutex" && st.Has(Atom("held:"+canonAddr(fa.X)+".f"+itoa(i))) {
+								a.held[stt.Field(i).Name()] = true
+							}
+						}
+						accs[fld] = append(accs[fld], a)
+					}
+				}
+			}
+		}
+		var flds []string
+		for f := range accs {
+			flds = append(flds, f)
+		}
+		sort.Strings(flds)
+		for _, fld := range flds {
+			as := accs[fld]
+			anyWrite, inCloser, inOther := false, false, false
+			for _, a := range as {
+				anyWrite = anyWrite || a.write
+				inCloser = inCloser || a.closer
+				inOther = inOther || a.other
+			}
+			if !anyWrite || !inCloser || !inOther {
+				continue
+			}
+			// the common mutex: one that is held at the most accesses
+			best, bestN := "", -1
+			for _, mu := range mutexes {
+				n := 0
+				for _, a := range as {
+					if a.held[mu] {
+						n++
+					}
+				}
+				if n > bestN {
+					best, bestN = mu, n
+				}
+			}
+			k := 0
+			for _, a := range as {
+				k++
+				// an access conflicts if the other side (closer vs non-closer)
+				// has an access and one of the two is a write
+				conflict := false
+				for _, b := range as {
+					if ((a.closer && b.other) || (a.other && b.closer)) && (a.write || b.write) {
+						conflict = true
+					}
+				}
+				if !conflict {
+					continue
+				}
+				kind := "read"
+				if a.write {
+					kind = "write"
+				}
+				r.table(p, "C19.closer-shared-fields", fmt.Sprintf("%s #%d of %s in %s", kind, k, fld, p.FuncName(a.fn)), p.instrPos(a.in), a.held[best],
+					fmt.Sprintf("the field is written after construction and shared between closer and producer; requires the struct's mutex %s (held at %d of %d accesses)", best, bestN, len(as)))
+			}
+		}
+	}
+}
+
+// structOf returns the struct type behind t (a struct or pointer to struct).
+func structOf(t types.Type) *types.Struct {
+	base := types.Unalias(t).Underlying()
+	if pt, ok := base.(*types.Pointer); ok {
+		base = types.Unalias(pt.Elem()).Underlying()
+	}
+	st, _ := base.(*types.Struct)
+	return st
 }
 
 // fieldIndex returns the index of the field whose qualified name is name
